@@ -144,6 +144,12 @@ theorem at_most_once_counterexample :
   revert this
   decide
 
+/-- what the minimal repair (de-duplicate the appended request lists by segment key, `Cfg.dedupSeg`) does to
+the witness schedule: the block is counted once. -/
+example : ((run { Cfg.real with dedupSeg := true } init
+    [.flush 0, .q 0 true, .rot 0, .rot 0, .q 0 true, .q 0 true]).query 0).result = [(⟨0, 0⟩, 0)] := by
+  decide
+
 /-- the guard "no rotation step between the two snapshot steps" alone is NOT enough: both snapshots can
 fall into the hand-over window of a rotation (published, not yet removed from the unrotated map). -/
 theorem at_most_once_window_counterexample :
